@@ -126,6 +126,21 @@ Theorem C08_markers : markers_stmt.
 Proof. exact markers_all. Qed.
 Print Assumptions C08_markers.
 
+(* round / percent / bytesize / bytesizesi / downscale (after repair 7c30345): a constant precision above
+   maxPrecision (regenerated, 1100) yields <VALUE> for every value, bound and oracle -- the float
+   formatter is never asked for an unbounded number of decimals *)
+Theorem C08_precision_marker : precision_stmt.
+Proof. exact precision_marker. Qed.
+Print Assumptions C08_precision_marker.
+
+(* @range (after repair 454a143; the loop with int64 wrap-around of i += incr and the count test): whatever
+   start, stop and increment are, at most maxRangeElements (regenerated, 10^6) elements are built; the
+   alternative is <VALUE>.  Ranges below the cap are C17's subject (C17_range). *)
+Theorem C08_range_bounded : forall start stop incr l,
+  range_capped start stop incr = Some l -> Z.of_nat (List.length l) <= maxRangeElements.
+Proof. exact range_bounded. Qed.
+Print Assumptions C08_range_bounded.
+
 (* the boolean form used on the implementation's outcomes accepts everything the model predicts *)
 Theorem C08_check_sound : forall c,
   (forall n args o, c = CFlat n args o -> has_model n = true /\ oracle_ok n o) -> C08_check c (predict c) = true.
